@@ -111,7 +111,7 @@ def run_values(acc: Acc, maxargs: int):
                             acc.bad("value_mismatch", f"{op} over several arguments differs from NumPy on {kind}", f"{rp}", rp)
                         acc.nontrivial.add((op, kind, shape, dtype, k))
                     # one argument: reduction along an axis / dim
-                    for ax in [None] + list(range(len(shape))):
+                    for ax in [None] + list(range(len(shape))) + ([-1] if kind == "numpy" else []):
                         rp = {"family": "values", "op": op, "kind": kind, "shape": list(shape), "dtype": dtype, "nargs": 1, "axis": ax}
                         acc.n += 1
                         kw = {}
@@ -123,7 +123,7 @@ def run_values(acc: Acc, maxargs: int):
                         acc.nontrivial.add((op, kind, shape, dtype, 1, ax))
                 # stack / concat
                 for k in range(1, maxargs + 1):
-                    for ax in range(len(shape) + 1):
+                    for ax in list(range(len(shape) + 1)) + list(range(-(len(shape) + 1), 0)):
                         rp = {"family": "values", "op": "stack", "kind": kind, "shape": list(shape), "dtype": dtype, "nargs": k, "axis": ax}
                         acc.n += 1
                         kw = {"axis": ax} if kind == "numpy" else {"axis": ax, "dim": "new"}
@@ -133,10 +133,10 @@ def run_values(acc: Acc, maxargs: int):
                                 acc.bad("value_mismatch", f"stack differs from NumPy on {kind}", f"{rp}", rp)
                             elif kind != "numpy":
                                 gd = unwrap(got, kind)[0][1]
-                                if gd[ax] != "new":
+                                if gd[ax] != "new":  # negative ax indexes from the end, as in NumPy
                                     acc.bad("dims_mismatch", f"stack put the new dimension at the wrong axis on {kind}", f"{rp}: {gd}", rp)
                         acc.nontrivial.add(("stack", kind, shape, dtype, k, ax))
-                    for ax in range(len(shape)):
+                    for ax in list(range(len(shape))) + list(range(-len(shape), 0)):
                         rp = {"family": "values", "op": "concat", "kind": kind, "shape": list(shape), "dtype": dtype, "nargs": k, "axis": ax}
                         acc.n += 1
                         kw = {"axis": ax} if kind == "numpy" else {"dim": dims[ax]}
@@ -162,7 +162,7 @@ def run_values(acc: Acc, maxargs: int):
                     if ok and not same(unwrap(got, kind), [npf(base[0], 2)] if kind != "dataset" else [npf(base[0], 2), npf(base[0] * 2, 2)]):
                         acc.bad("value_mismatch", f"{op} with a scalar differs from NumPy on {kind}", f"{rp}", rp)
                 # take
-                for ax in range(len(shape)):
+                for ax in list(range(len(shape))) + [-1]:
                     for idx in [0, shape[ax] - 1, [0], list(range(shape[ax]))[::-1]]:
                         for dimspec in (["int"] if kind == "numpy" else ["int", "name"]):
                             rp = {"family": "values", "op": "take", "kind": kind, "shape": list(shape), "dtype": dtype, "axis": ax, "index": idx, "dimspec": dimspec}
